@@ -206,12 +206,12 @@ Qed.
 
 (* what a file contributes when its own processing succeeds *)
 Definition file_result (f : sfile) : option (list template * sfile) :=
-  match find_namespace (sf_body f) with
+  match find_namespace (sfile_body f) with
   | inl _ => None
   | inr (ns, ae) =>
-      match units_ok (file_units (sf_name f) ns ae None (sf_body f)) with
+      match units_ok (file_units (sfile_name f) ns ae None (sfile_body f)) with
       | Some l => Some (map tu_template l,
-                        {| sf_name := sf_name f; sf_text := sf_text f; sf_body := processed_body (sf_name f) ns ae None (sf_body f) |})
+                        {| sfile_name := sfile_name f; sfile_text := sfile_text f; sfile_body := processed_body (sfile_name f) ns ae None (sfile_body f) |})
       | None => None
       end
   end.
@@ -220,7 +220,7 @@ Definition file_pf (f : sfile) : sfile := match file_result f with Some (_, pf) 
 
 Lemma file_defines_ok f ts pf : file_result f = Some (ts, pf) -> file_defines f = map t_name ts.
 Proof.
-  unfold file_result, file_defines. destruct (find_namespace (sf_body f)) as [e|[ns ae]]; [discriminate|].
+  unfold file_result, file_defines. destruct (find_namespace (sfile_body f)) as [e|[ns ae]]; [discriminate|].
   destruct (units_ok _) as [l|] eqn:E; [|discriminate]. intros [= <- _]. rewrite (unit_names_ok _ _ E), map_map. reflexivity.
 Qed.
 
@@ -228,14 +228,14 @@ Lemma registry_add_ok r f r' : reg_inv (cr_reg r) ->
   (registry_add r f = inr r' <->
    exists ts pf, file_result f = Some (ts, pf) /\ NoDup (map t_name ts) /\
                  (forall n, In n (map t_name ts) -> assoc_s n (r_files (cr_reg r)) = None) /\
-                 r' = {| cr_soyfiles := cr_soyfiles r ++ [pf]; cr_reg := reg_extend (cr_reg r) (sf_text f) ts |}).
+                 r' = {| cr_soyfiles := cr_soyfiles r ++ [pf]; cr_reg := reg_extend (cr_reg r) (sfile_text f) ts |}).
 Proof.
   intros Hinv. unfold registry_add, file_result.
-  destruct (find_namespace (sf_body f)) as [e|[ns ae]]; [split; [discriminate | intros (ts & pf & H & _); discriminate]|].
+  destruct (find_namespace (sfile_body f)) as [e|[ns ae]]; [split; [discriminate | intros (ts & pf & H & _); discriminate]|].
   destruct (add_units _ _ _ _) as [e|reg'] eqn:Ea.
   - split; [discriminate|]. intros (ts & pf & Hr & Hnd & Hfresh & _).
     destruct (units_ok _) as [l|] eqn:El; [|discriminate]. injection Hr as <- _.
-    assert (H : add_units (sf_name f) (sf_text f) (file_units (sf_name f) ns ae None (sf_body f)) (cr_reg r) = inr (reg_extend (cr_reg r) (sf_text f) (map tu_template l))).
+    assert (H : add_units (sfile_name f) (sfile_text f) (file_units (sfile_name f) ns ae None (sfile_body f)) (cr_reg r) = inr (reg_extend (cr_reg r) (sfile_text f) (map tu_template l))).
     { apply add_units_ok; [exact Hinv|]. exists l. rewrite map_map in Hnd, Hfresh. repeat split; assumption. }
     congruence.
   - apply add_units_ok in Ea; [|exact Hinv]. destruct Ea as (l & El & Hnd & Hfresh & ->). rewrite El. split.
@@ -247,7 +247,7 @@ Qed.
 
 Definition all_ts (fs : list sfile) : list template := flat_map file_ts fs.
 Definition all_sources (fs : list sfile) : list (bstr * bstr) :=
-  flat_map (fun f => map (fun t => (t_name t, sf_text f)) (file_ts f)) fs.
+  flat_map (fun f => map (fun t => (t_name t, sfile_text f)) (file_ts f)) fs.
 
 Definition big_extend (r : creg) (fs : list sfile) : creg :=
   {| cr_soyfiles := cr_soyfiles r ++ map file_pf fs;
@@ -260,16 +260,16 @@ Definition files_ok (r : creg) (fs : list sfile) : Prop :=
   (forall n, In n (map t_name (all_ts fs)) -> assoc_s n (r_files (cr_reg r)) = None).
 
 Lemma add_files_ok fs : forall r r', reg_inv (cr_reg r) ->
-  (add_files r (map SrcOk fs) = COk r' <-> files_ok r fs /\ r' = big_extend r fs).
+  (add_all_files r (map SrcOk fs) = COk r' <-> files_ok r fs /\ r' = big_extend r fs).
 Proof.
-  induction fs as [|f rest IH]; intros r r' Hinv; cbn [map add_files].
+  induction fs as [|f rest IH]; intros r r' Hinv; cbn [map add_all_files].
   - unfold files_ok, big_extend, all_ts, all_sources. cbn. split.
     + intros [= <-]. split; [repeat split; [constructor | constructor | intros n []]|]. destruct r as [sf [a c d]]. cbn. rewrite !app_nil_r. reflexivity.
     + intros (_ & ->). destruct r as [sf [a c d]]. cbn. rewrite !app_nil_r. reflexivity.
   - destruct (registry_add r f) as [e|r1] eqn:Ea.
     + split; [discriminate|]. intros ((Hall & Hnd & Hfresh) & _). exfalso.
       inversion Hall as [|? ? Hf Hrest]; subst. destruct (file_result f) as [[ts pf]|] eqn:Er; [|congruence].
-      assert (H : registry_add r f = inr {| cr_soyfiles := cr_soyfiles r ++ [pf]; cr_reg := reg_extend (cr_reg r) (sf_text f) ts |}).
+      assert (H : registry_add r f = inr {| cr_soyfiles := cr_soyfiles r ++ [pf]; cr_reg := reg_extend (cr_reg r) (sfile_text f) ts |}).
       { apply registry_add_ok; [exact Hinv|]. exists ts, pf. split; [exact Er|].
         unfold all_ts in Hnd, Hfresh. cbn [flat_map] in Hnd, Hfresh. unfold file_ts at 1 in Hnd. unfold file_ts at 1 in Hfresh. rewrite Er in Hnd, Hfresh.
         rewrite map_app in Hnd, Hfresh. apply NoDup_app_iff in Hnd. destruct Hnd as (H1 & _ & _).
@@ -279,7 +279,7 @@ Proof.
       rewrite IH; [|apply reg_inv_extend, Hinv].
       assert (Hts : file_ts f = ts) by (unfold file_ts; rewrite Er; reflexivity).
       assert (Hpf : file_pf f = pf) by (unfold file_pf; rewrite Er; reflexivity).
-      assert (Hbig : big_extend {| cr_soyfiles := cr_soyfiles r ++ [pf]; cr_reg := reg_extend (cr_reg r) (sf_text f) ts |} rest = big_extend r (f :: rest)).
+      assert (Hbig : big_extend {| cr_soyfiles := cr_soyfiles r ++ [pf]; cr_reg := reg_extend (cr_reg r) (sfile_text f) ts |} rest = big_extend r (f :: rest)).
       { unfold big_extend, reg_extend, all_ts, all_sources. cbn [cr_soyfiles cr_reg r_templates r_sources r_files flat_map map].
         rewrite Hts, Hpf, !map_app, <- !app_assoc. reflexivity. }
       rewrite Hbig. unfold files_ok. cbn [cr_reg]. unfold all_ts. cbn [flat_map]. fold (all_ts rest). rewrite Hts, map_app. split.
@@ -298,9 +298,9 @@ Proof.
         apply assoc_s_None. rewrite map_map. cbn. intros Hi. apply (Hdisj n Hi Hn).
 Qed.
 
-Lemma add_files_parsed srcs : forall r r', add_files r srcs = COk r' -> exists fs, srcs = map SrcOk fs.
+Lemma add_files_parsed srcs : forall r r', add_all_files r srcs = COk r' -> exists fs, srcs = map SrcOk fs.
 Proof.
-  induction srcs as [|[f|n m] rest IH]; intros r r' H; cbn [add_files] in H; [exists []; reflexivity | | discriminate].
+  induction srcs as [|[f|n m] rest IH]; intros r r' H; cbn [add_all_files] in H; [exists []; reflexivity | | discriminate].
   destruct (registry_add r f) as [e|r1]; [discriminate|]. destruct (IH _ _ H) as (fs & ->). exists (f :: fs). reflexivity.
 Qed.
 
@@ -347,9 +347,9 @@ Proof.
 Qed.
 
 (* the loop over the files under a permutation of the files *)
-Lemma add_files_perm srcs srcs' r : Permutation srcs srcs' -> add_files empty_creg srcs = COk r ->
+Lemma add_files_perm srcs srcs' r : Permutation srcs srcs' -> add_all_files empty_creg srcs = COk r ->
   exists fs fs', srcs = map SrcOk fs /\ srcs' = map SrcOk fs' /\ Permutation fs fs' /\ files_ok empty_creg fs /\
-                 r = big_extend empty_creg fs /\ add_files empty_creg srcs' = COk (big_extend empty_creg fs').
+                 r = big_extend empty_creg fs /\ add_all_files empty_creg srcs' = COk (big_extend empty_creg fs').
 Proof.
   intros Hp Ha. destruct (add_files_parsed _ _ _ Ha) as (fs & ->).
   apply Permutation_sym in Hp. destruct (Permutation_map_inv _ _ Hp) as (fs' & -> & Hp').
@@ -375,7 +375,7 @@ Theorem compile_gen_accept_perm ns o calls srcs srcs' c :
 Proof.
   intros Hp Hc. unfold compile_gen in *.
   destruct (bg_err (bundle_of_globals (o_globals o) calls)) as [[gn gv]|]; [discriminate|].
-  destruct (add_files empty_creg srcs) as [r|e] eqn:Ea; [|discriminate].
+  destruct (add_all_files empty_creg srcs) as [r|e] eqn:Ea; [|discriminate].
   destruct (add_files_perm _ _ _ Hp Ea) as (fs & fs' & -> & -> & Hpf & (Hall & Hnd & _) & -> & Ea').
   rewrite Ea'. rewrite big_extend_templates in *.
   pose proof (all_ts_perm _ _ Hpf) as Hpt.
@@ -404,7 +404,7 @@ Theorem compile_gen_accept_unique ns o calls srcs c :
 Proof.
   intros Hc. unfold compile_gen in Hc.
   destruct (bg_err _) as [[gn gv]|]; [discriminate|].
-  destruct (add_files empty_creg srcs) as [r|e] eqn:Ea; [|discriminate].
+  destruct (add_all_files empty_creg srcs) as [r|e] eqn:Ea; [|discriminate].
   destruct (add_files_perm _ _ _ (Permutation_refl _) Ea) as (fs & _ & _ & _ & _ & (_ & Hnd & _) & -> & _).
   destruct (first_failure _ _) as [[n1 e1]|]; [discriminate|]. destruct (first_failure _ _) as [[n2 e2]|]; [discriminate|].
   injection Hc as <-. exact Hnd.
@@ -453,7 +453,7 @@ Proof.
 Qed.
 
 (* the registry built from the files added so far *)
-Definition def_entry (d : sfile * bstr) : bstr * bstr := (snd d, sf_name (fst d)).
+Definition def_entry (d : sfile * bstr) : bstr * bstr := (snd d, sfile_name (fst d)).
 Definition built_from (r : creg) (pre : list src) : Prop :=
   reg_inv (cr_reg r) /\ r_files (cr_reg r) = map def_entry (definitions pre).
 
@@ -462,7 +462,7 @@ Proof. unfold definitions. apply flat_map_app. Qed.
 
 Lemma file_result_files f ts pf : file_result f = Some (ts, pf) -> map name_file ts = map def_entry (map (pair f) (map t_name ts)).
 Proof.
-  unfold file_result. destruct (find_namespace (sf_body f)) as [e|[ns ae]]; [discriminate|].
+  unfold file_result. destruct (find_namespace (sfile_body f)) as [e|[ns ae]]; [discriminate|].
   destruct (units_ok _) as [l|] eqn:E; [|discriminate]. intros [= <- _]. rewrite !map_map. apply map_ext_in. intros u Hu.
   unfold name_file, def_entry. cbn. f_equal. eapply file_units_file, units_ok_In; eassumption.
 Qed.
@@ -479,13 +479,13 @@ Section ErrorsOfTheBundle.
   Variable ko : korder.
   Variable bg : bundle_globals.
 
-  Lemma add_files_err srcs : forall pre r e, built_from r pre -> add_files r srcs = CErr e -> bundle_error ko bg (pre ++ srcs) e.
+  Lemma add_files_err srcs : forall pre r e, built_from r pre -> add_all_files r srcs = CErr e -> bundle_error ko bg (pre ++ srcs) e.
   Proof.
-    induction srcs as [|[f|pn pm] rest IH]; intros pre r e Hb H; cbn [add_files] in H; [discriminate | |].
+    induction srcs as [|[f|pn pm] rest IH]; intros pre r e Hb H; cbn [add_all_files] in H; [discriminate | |].
     - destruct (registry_add r f) as [e0|r1] eqn:Ea.
       + injection H as <-. unfold registry_add in Ea.
         assert (Hin : In (SrcOk f) (pre ++ SrcOk f :: rest)) by (apply in_or_app; right; left; reflexivity).
-        destruct (find_namespace (sf_body f)) as [en|[ns ae]] eqn:En.
+        destruct (find_namespace (sfile_body f)) as [en|[ns ae]] eqn:En.
         * injection Ea as <-. apply BE_namespace; assumption.
         * destruct (add_units _ _ _ _) as [eu|reg'] eqn:Eu; [|discriminate]. injection Ea as <-.
           destruct (add_units_err _ _ _ _ _ Eu) as (us1 & l1 & x & us2 & Hus & Hok & Hx).
@@ -527,7 +527,7 @@ Proof.
   intros H. unfold compile_gen in H.
   destruct (bg_err (bundle_of_globals (o_globals o) calls)) as [[gn gv]|] eqn:Eg.
   - injection H as <-. apply BE_globals, Eg.
-  - destruct (add_files empty_creg srcs) as [r|e0] eqn:Ea.
+  - destruct (add_all_files empty_creg srcs) as [r|e0] eqn:Ea.
     + destruct (first_failure (check_template _ _) _) as [[n1 e1]|] eqn:Ec.
       * injection H as <-. destruct (first_failure_Some _ _ _ _ Ec) as (t & Hi & <- & He). eapply BE_check; eassumption.
       * destruct (first_failure (set_globals_template _ _) _) as [[n2 e2]|] eqn:Es; [|discriminate].
@@ -597,13 +597,13 @@ Proof. induction body as [|n b IH]; cbn [find_namespace]; [discriminate|]. destr
 
 Theorem registry_add_no_crash r f : registry_add r f <> inl AEIndexCrash.
 Proof.
-  unfold registry_add. destruct (find_namespace (sf_body f)) as [e|[ns ae]] eqn:En.
+  unfold registry_add. destruct (find_namespace (sfile_body f)) as [e|[ns ae]] eqn:En.
   - intros [= ->]. apply (find_namespace_no_crash _ En).
   - destruct (add_units _ _ _ _) as [e|reg'] eqn:Eu; [|discriminate]. intros [= ->].
     destruct (add_units_err _ _ _ _ _ Eu) as (us1 & l1 & x & us2 & Hus & _ & Hx).
     destruct Hx as [->|(u & other & _ & Hd & _)]; [|discriminate].
-    eapply (file_units_no_crash (sf_name f) ns ae (sf_body f) None).
-    + right. destruct (sf_body f) as [|n b]; [exact I|]. cbn [find_namespace] in En. destruct n; try discriminate; reflexivity.
+    eapply (file_units_no_crash (sfile_name f) ns ae (sfile_body f) None).
+    + right. destruct (sfile_body f) as [|n b]; [exact I|]. cbn [find_namespace] in En. destruct n; try discriminate; reflexivity.
     + rewrite Hus. apply in_or_app. right. left. reflexivity.
 Qed.
 
